@@ -4,6 +4,7 @@ import (
 	"fmt"
 	"math/rand"
 	"sort"
+	"strings"
 
 	"github.com/resonatehq/resonate/verif/sim/faultdb"
 )
@@ -42,6 +43,9 @@ type Profile struct {
 	PJump      float64 // tick jumps far
 	HostileIds bool
 	Crons      []string
+	// Prologue: "" or "tasks" (routed promises, registrations and a few settled
+	// rounds first, so that tasks exist and get dispatched)
+	Prologue string
 	// PFine: probability that a run uses the millisecond time scale
 	PFine float64
 	// HotP: probability that a promise operation addresses the run's hot id
@@ -49,8 +53,9 @@ type Profile struct {
 	// NoQuiesce: skip the final convergence phase
 	NoQuiesce bool
 	// Timeouts (relative, ms) to choose from
-	TimeoutRel []int64
-	Ttls       []int64
+	TimeoutRel     []int64
+	FineTimeoutRel []int64
+	Ttls           []int64
 }
 
 func pick[T any](r *rand.Rand, xs []T) T { return xs[r.Intn(len(xs))] }
@@ -172,6 +177,9 @@ func (g *Gen) promiseId() string {
 
 func (g *Gen) timeoutRel() int64 {
 	if g.S.Cfg.Fine {
+		if len(g.P.FineTimeoutRel) > 0 {
+			return pick(g.R, g.P.FineTimeoutRel)
+		}
 		return pick(g.R, []int64{-1, 0, 1, 2, 3, 5, 8, 12, 20, 40, 100})
 	}
 	return pick(g.R, g.P.TimeoutRel)
@@ -211,6 +219,30 @@ func (g *Gen) createSpec(kind string) *ReqSpec {
 
 // taskIds lists task ids worth addressing: stored ones and a few derived names.
 func (g *Gen) taskIds() []string {
+	if g.R.Intn(10) < 8 {
+		var live []string
+		for id, t := range g.S.Last.Tasks {
+			if t.State == 1 || t.State == 2 || (t.State == 4 && g.R.Intn(2) == 0) {
+				live = append(live, id)
+			}
+		}
+		if len(live) > 0 {
+			sort.Strings(live)
+			return live
+		}
+	}
+	if g.R.Float64() < g.P.HotP {
+		var hot []string
+		for id, t := range g.S.Last.Tasks {
+			if t.RootPromiseId == g.hot {
+				hot = append(hot, id)
+			}
+		}
+		if len(hot) > 0 {
+			sort.Strings(hot)
+			return hot
+		}
+	}
 	ids := []string{}
 	for id := range g.S.Last.Tasks {
 		ids = append(ids, id)
@@ -286,7 +318,7 @@ func (g *Gen) reqSpec() *ReqSpec {
 	case "HeartbeatLocks", "HeartbeatTasks":
 		return &ReqSpec{Kind: kind, Process: pick(g.R, g.P.Procs)}
 	case "ClaimTask":
-		return &ReqSpec{Kind: kind, Id: pick(g.R, g.taskIds()), CounterFrom: pick(g.R, []string{"snap", "snap", "msg"}), Counter: pick(g.R, []int{0, 0, 0, 0, -1, 1}), Process: pick(g.R, g.P.Procs), Ttl: g.ttl()}
+		return &ReqSpec{Kind: kind, Id: pick(g.R, g.taskIds()), CounterFrom: pick(g.R, []string{"snap", "snap", "msg"}), Counter: pick(g.R, []int{0, 0, 0, 0, 0, 0, 0, -1, 1}), Process: pick(g.R, g.P.Procs), Ttl: g.ttl()}
 	case "CompleteTask":
 		return &ReqSpec{Kind: kind, Id: pick(g.R, g.taskIds()), CounterFrom: "snap", Counter: pick(g.R, []int{0, 0, 0, 0, -1, 1})}
 	case "SearchPromises":
@@ -382,6 +414,31 @@ func (g *Gen) faultIdx(n int, p float64) []int {
 	return out
 }
 
+// Prologue returns the fixed opening steps of a run.
+func (g *Gen) Prologue() []Step {
+	if g.P.Prologue != "tasks" {
+		return nil
+	}
+	var st []Step
+	long := int64(10_000_000)
+	n := 1 + g.R.Intn(len(g.P.Promises))
+	for i := 0; i < n; i++ {
+		id := g.P.Promises[i]
+		sp := &ReqSpec{Kind: "CreatePromise", Id: id, Data: g.val(), TimeoutRel: long, Tags: map[string]string{"resonate:invoke": pick(g.R, []string{"poll://g1/w1", "http://web.test/x", "default", `{"type":"poll","data":{"group":"g3","id":"w3"}}`})}}
+		if g.R.Intn(3) == 0 {
+			sp.TimeoutRel = pick(g.R, []int64{50, 2000, 30000})
+		}
+		st = append(st, Step{Op: "req", Req: sp})
+	}
+	st = append(st, Step{Op: "settle", Rounds: 1})
+	if g.R.Intn(2) == 0 && n >= 2 {
+		st = append(st, Step{Op: "req", Req: &ReqSpec{Kind: "CreateCallback", Id: "cb", PromiseId: g.P.Promises[1], RootId: g.P.Promises[0], Recv: pick(g.R, recvs), TimeoutRel: long}})
+		st = append(st, Step{Op: "req", Req: &ReqSpec{Kind: "CreateSubscription", Id: "s0", PromiseId: g.P.Promises[1], Recv: pick(g.R, recvs), TimeoutRel: long}})
+	}
+	st = append(st, Step{Op: "settle", Rounds: 1 + g.R.Intn(3)})
+	return st
+}
+
 // Next produces the next step.
 func (g *Gen) Next() Step {
 	s, r := g.S, g.R
@@ -443,7 +500,7 @@ func (g *Gen) Next() Step {
 				var sp *ReqSpec
 				for try := 0; try < 20; try++ {
 					sp = g.reqSpec()
-					if sp.Id == g.hot || sp.PromiseId == g.hot {
+					if sp.Id == g.hot || sp.PromiseId == g.hot || strings.HasSuffix(sp.Id, ":"+g.hot) || sp.Kind == "HeartbeatTasks" {
 						break
 					}
 				}
